@@ -1,4 +1,98 @@
 import Model.Base.Proto
+import Model.Num.Atof
+import Model.Spec.NumText
 
-/-- stub: replaced when the property's driver is built -/
-def main : IO Unit := pure ()
+namespace Driver.C03
+open Proto Num
+open Spec.NumText (NumErr parseFloatSpec parseIntSpec)
+
+def errS : Option NumErr → String
+  | none => "ok"
+  | some .syntax => "syntax"
+  | some .range => "range"
+
+def fr (r : FloatRes) : String := s!"{F64.toHex (F64.canonNaN r.val)}:{errS r.err}"
+def ir (r : IntRes) : String := s!"{r.val}:{errS r.err}"
+def ur (r : UintRes) : String := s!"{r.val}:{errS r.err}"
+def b01 (b : Bool) : String := if b then "1" else "0"
+
+def specF : Except NumErr F64.Bits → String
+  | .ok b => F64.toHex (F64.canonNaN b)
+  | .error .syntax => "!syntax"
+  | .error .range => "!range"
+
+/-- one rejection class for integers in the S vocabulary (see harness `specInt`) -/
+def specI : Except NumErr Int → String
+  | .ok n => toString n
+  | .error _ => "!reject"
+
+def frSpec (r : FloatRes) : String := match r.err with
+  | none => F64.toHex (F64.canonNaN r.val)
+  | some .syntax => "!syntax"
+  | some .range => "!range"
+
+/-- what the reader delivers for the one-line file `BenchmarkX <iters> <num> u` -/
+def rdLine (it : Except NumErr Int) (v : Except NumErr F64.Bits) (collapse : Bool := false) : String :=
+  match it with
+  | .error e => if collapse then "err:iters:file=f:line=1" else s!"err:iters-{errS (some e)}:file=f:line=1"
+  | .ok n =>
+    match v with
+    | .error e => s!"err:val-{errS (some e)}:file=f:line=1"
+    | .ok b => s!"ok:iters={n}:val={F64.toHex (F64.canonNaN b)}"
+
+def toExceptI (r : IntRes) : Except NumErr Int := match r.err with | none => .ok r.val | some e => .error e
+def toExceptF (r : FloatRes) : Except NumErr F64.Bits := match r.err with | none => .ok r.val | some e => .error e
+
+def handle (l : Line) : IO Unit := do
+  if l.kind != "case" then return
+  let id := l.id
+  match l.getD "kind" with
+  | "line" =>
+    let iters := (l.bytes? "iters").getD []
+    let num := (l.bytes? "num").getD []
+    let ai := atoi iters
+    let ra := readerAtof num
+    IO.println s!"obs {id} rd={rdLine (toExceptI ai) (toExceptF ra)}"
+    IO.println s!"obs {id} pf={fr (parseFloat num)} ra={fr ra} ai={ir ai} pi={ir (parseInt iters)} pu={ur (parseUint iters)} uok={b01 (underscoreOK num)}"
+    let sp := match special num with | some b => F64.toHex (F64.canonNaN b) | none => "-"
+    let r := readFloat num
+    let rf := if r.ok then s!"ok:{r.mant}:{r.exp}:{b01 r.neg}:{b01 r.trunc}:{b01 r.hex}" else s!"fail:{b01 r.hex}"
+    let ex := if r.ok && !r.hex then
+        match atof64exact r.mant r.exp r.neg with | some b => F64.toHex (F64.canonNaN b) | none => "-"
+      else "-"
+    let hxs := if r.ok && r.hex then fr (atofHex r.mant r.exp r.neg r.trunc) else "-"
+    IO.println s!"obs {id} sp={sp} rf={rf} ex={ex} hx={hxs}"
+    if l.getD "spec" == "1" then
+      let sv := parseFloatSpec num
+      let si := parseIntSpec iters
+      IO.println s!"spec {id} impl rd={rdLine si sv true}"
+      IO.println s!"spec {id} strconv val={specF sv} iters={specI si}"
+      IO.println s!"spec {id} direct val={specF sv} ratof={specF sv} iters={specI si}"
+  | "exact" =>
+    let mant := (l.nat? "mant").getD 0
+    let exp := ((l.getD "exp").toInt?).getD 0
+    let neg := l.getD "neg" == "1"
+    match atof64exact mant exp neg with
+    | some b =>
+      IO.println s!"obs {id} ex={F64.toHex b}"
+      IO.println s!"spec {id} ex={F64.toHex (F64.ofDecimal neg mant exp)}"
+    | none => IO.println s!"obs {id} ex=-"
+  | "hexd" =>
+    let mant := (l.nat? "mant").getD 0
+    let exp := ((l.getD "exp").toInt?).getD 0
+    let neg := l.getD "neg" == "1"
+    let trunc := l.getD "trunc" == "1"
+    IO.println s!"obs {id} hx={fr (atofHex mant exp neg trunc)}"
+    if !trunc then
+      let p : Spec.NumText.Parsed := { neg, hex := true, mant, exp }
+      IO.println s!"spec {id} hx={specF p.eval}"
+  | "table" =>
+    let tab := (List.range pow10TableLen).map fun k => F64.toHex (float64pow10 k)
+    IO.println s!"obs {id} n={pow10TableLen} tab={",".intercalate tab}"
+  | _ => pure ()
+
+end Driver.C03
+
+def main : IO Unit := do
+  let stdin ← IO.getStdin
+  Proto.forEachLine stdin fun s => Driver.C03.handle (Proto.parseLine s)
